@@ -56,6 +56,10 @@ def run_case(spec):
         live.run_no = n
         if per_run:
             model = P.Model(prog, run_no=n).run()
+            if case is not None:
+                # force_failure is an attribute the test sets on itself; testtools leaves it alone between runs
+                # (DESIGN 11.2), so a program whose runs differ starts each run with the value it was built with
+                case.force_failure = bool(prog.get("force_outside"))
         obs = R.run_program(prog, spec["flavour"], case=case, live=live)
         case = obs["case"]
         log = list(live.log)
